@@ -34,7 +34,13 @@ func init() {
 				managed = append(managed, c27Op{"setat", k, ts}, c27Op{"delat", k, ts})
 			}
 		}
-		modes := []mode{{"normal", plain}, {"at6", plain}, {"managed", managed}}
+		// NewWriteBatchAt(6): plain Set/Delete take the batch timestamp, SetEntryAt/DeleteAt their own
+		var mixed []c27Op
+		mixed = append(mixed, plain...)
+		for _, ts := range []uint64{5, 7} {
+			mixed = append(mixed, c27Op{"setat", "x", ts}, c27Op{"delat", "x", ts})
+		}
+		modes := []mode{{"normal", plain}, {"at6", mixed}, {"managed", managed}}
 		for _, m := range modes {
 			for _, split := range []int{1, 2, 3, 100} {
 				m, split := m, split
@@ -67,7 +73,7 @@ func init() {
 							v := fmt.Sprintf("v%d", i)
 							var err error
 							ver := op.ts
-							if m.name == "at6" {
+							if m.name == "at6" && ver == 0 {
 								ver = 6
 							}
 							if m.name == "normal" {
